@@ -34,8 +34,9 @@ TEXT.update({
   "engine": "M",
   "technique": "symbolic execution of the rustc MIR of InMemDicomObject::apply_leaf and the functions it calls over a finite map with symbolic tags; z3 decides every path against a reference model of the documented semantics; replay on a real object",
   "level": "For objects of 1-2 (thorough 0-2) elements with symbolic, possibly coinciding tags, a symbolic addressed tag and symbolic new value / text / VR: after Remove, Empty, SetVr, Set, SetStr, SetIfMissing, Replace "
-           "(thorough also SetStrIfMissing, ReplaceStr) the object holds exactly the attributes the documented semantics give - the addressed one changed (or created only where the action says so, with the dictionary's VR), all others untouched.",
-  "note": "leaf actions on flat objects only: nested selectors, push / truncate actions, the file meta table's ApplyOp and writing the resulting objects are not encoded; BTreeMap is a finite map with symbolic keys, the dictionary a contract answering any VR",
+           "(thorough also SetStrIfMissing, ReplaceStr) the object holds exactly the attributes the documented semantics give - the addressed one changed (or created only where the action says so, with the dictionary's VR), all others untouched. "
+           "One nested step: whether the operation succeeds, whether a missing sequence / the next item is created (constructive actions only) and that a failing non-constructive action leaves the object unchanged follow the documented rules.",
+  "note": "leaf actions and one nested selector step: deeper selectors, push / truncate actions, the file meta table's ApplyOp and writing the resulting objects are not encoded; BTreeMap is a finite map with symbolic keys, the dictionary a contract answering any VR",
  },
  "C15": {
   "engine": "M",
